@@ -4,7 +4,7 @@
 Require Extraction.
 Require Import ExtrOcamlBasic.
 From MOC.Base Require Import RangeSet.
-From MOC.Model Require Import Qty Ops1D Query Expr Build Repr Serial.
+From MOC.Model Require Import Qty Ops1D Query Expr Build Repr Serial ST.
 Extraction Language OCaml.
 Extraction "moc_model.ml"
   RangeSet.covb RangeSet.canonb RangeSet.canon_of
@@ -15,4 +15,5 @@ Extraction "moc_model.ml"
   Expr.eval Expr.edepth Expr.leaves_validb
   Build.build_ranges Build.build_cells Build.build_dcells Build.kway
   Repr.normal_cellsb Repr.uniq_hpx Repr.from_uniq_hpx Repr.to_zuniq Repr.from_zuniq Repr.scale
-  Serial.encode_rows Serial.decode_rows Serial.fits_pad Serial.decode_cells.
+  Serial.encode_rows Serial.decode_rows Serial.fits_pad Serial.decode_cells
+  ST.pts_opb ST.pts_eqb ST.valid2db ST.wfb ST.time_orderedb ST.s_at.
